@@ -24,6 +24,7 @@ type c05World struct {
 	b1, b2  *Backend
 	u1, u2  string // user names == ports of b1, b2
 	cookie1 string // openid cookie of u1 (mixed modes)
+	sess1   string // Cookie header of the browser session that signed in through OpenID as u1 (mixed modes)
 }
 
 func has(m []string, x string) bool {
@@ -94,6 +95,7 @@ func (l *Lab) c05Start(mech []string, idp *IdP) (*c05World, error) {
 			return nil, fmt.Errorf("openid login: %w", err)
 		}
 		w.cookie1 = f.Settings["gatewayaccesstoken"]
+		w.sess1 = br.cookieHeader()
 	}
 	return w, nil
 }
@@ -135,7 +137,7 @@ type c05Cred struct {
 
 func CheckC05(l *Lab, verifDir string) int {
 	rep := NewReport("C05", l.Tier, l.Seed, "exploration", verifDir)
-	rep.Rule = "one real gateway process per startable subset of {openid, kerberos, local, ntlm} (all 12, the empty one included; ntlm subsets use the real rdpgw-auth with its user file and a PAM stand-in, the other local subsets a logging stand-in service; kerberos uses a generated keytab and SPNEGO tokens forged offline; TLS with a run-time certificate whenever local is enabled); per process: methods {RDG_OUT_DATA upgrade, RDG_OUT_DATA legacy, RDG_IN_DATA, GET, POST, OPTIONS, lower-case variants} x Authorization {absent, empty, bare scheme words, wrong-case / truncated schemes, bad base64, no colon, wrong / other user's / right password, credentials of a disabled scheme, two headers in both orders, 8 KiB header, NTLM message orderings (type 3 without type 1, on a new connection, for another connection's challenge with and without identical forwarding headers, replayed, type 1 twice), overlapping Basic requests of one user with different passwords and of different users (stand-in service made slow), valid / expired / wrong-key / garbled SPNEGO tokens, PRNG header strings in thorough}. Oracle: reached-handler (101, legacy accepts, 200 for other methods) iff an enabled scheme's credentials were confirmed (openid alone: always); the tunnel's user is the confirmed one (host policy 127.0.0.1:{{ preferred_username }} with users named after their backend's port: channel-create to port p succeeds iff the tunnel user is p); no header => 401 with exactly the challenges of the enabled mechanisms; Basic requests produce exactly one backend call with the decoded credentials. non-trivial = request answered; distinct = subset x method x credential class x outcome"
+	rep.Rule = "one real gateway process per startable subset of {openid, kerberos, local, ntlm} (all 12, the empty one included; ntlm subsets use the real rdpgw-auth with its user file and a PAM stand-in, the other local subsets a logging stand-in service; kerberos uses a generated keytab and SPNEGO tokens forged offline; TLS with a run-time certificate whenever local is enabled); per process: methods {RDG_OUT_DATA upgrade, RDG_OUT_DATA legacy, RDG_IN_DATA, GET, POST, OPTIONS, lower-case variants} x Authorization {absent, empty, bare scheme words, wrong-case / truncated schemes, bad base64, no colon, wrong / other user's / right password, credentials of a disabled scheme, two headers in both orders, 8 KiB header, NTLM message orderings (type 3 without type 1, on a new connection, for another connection's challenge with and without identical forwarding headers, replayed, type 1 twice), overlapping Basic requests of one user with different passwords and of different users (stand-in service made slow), valid / expired / wrong-key / garbled SPNEGO tokens, PRNG header strings in thorough}. Oracle: reached-handler (101, legacy accepts, 200 for other methods) iff an enabled scheme's credentials were confirmed (openid alone: always); the tunnel's user is the confirmed one (host policy 127.0.0.1:{{ preferred_username }} with users named after their backend's port: channel-create to port p succeeds iff the tunnel user is p; and, in every configuration incl. OpenID stacked, hook event tunnel.new keyed by the lab-chosen connection id names the confirmed user, also when the request carries the cookie of a web session that signed in through OpenID as another user); no header => 401 with exactly the challenges of the enabled mechanisms; Basic requests produce exactly one backend call with the decoded credentials. non-trivial = request answered; distinct = subset x method x credential class x outcome"
 	idp, err := NewIdP()
 	if err != nil {
 		rep.Inconclusive(err.Error())
@@ -209,11 +211,19 @@ type c05Outcome struct {
 	T       *TClient
 	Resp    *HResp
 	Err     error
+	ConnID  string // Rdg-Connection-Id of the request that created the tunnel
+	EvFrom  int    // index of the first hook event that can belong to it
 }
 
 // c05Request sends one request with the method / transport and header list;
 // pre, if set, runs on the connection first (NTLM type 1).
 func (w *c05World) c05Request(method string, hdr Hdr, pre func(hc *HConn, method string) (Hdr, error)) c05Outcome {
+	o := w.c05RequestID(method, hdr, pre, NewConnID("c5"), w.gw.EventCount())
+	return o
+}
+
+func (w *c05World) c05RequestID(method string, hdr Hdr, pre func(hc *HConn, method string) (Hdr, error), connID string, evFrom int) (res c05Outcome) {
+	defer func() { res.ConnID, res.EvFrom = connID, evFrom }()
 	hc, err := DialH(w.gw.Addr, DialOpts{TLS: w.tls})
 	if err != nil {
 		return c05Outcome{Err: err}
@@ -236,7 +246,7 @@ func (w *c05World) c05Request(method string, hdr Hdr, pre func(hc *HConn, method
 	switch method {
 	case "RDG_OUT_DATA-upgrade", "rdg_out_data-upgrade":
 		m := strings.TrimSuffix(method, "-upgrade")
-		t, r, err := OpenWSOn(hc, WSOpts{ConnID: NewConnID("u"), Headers: hdr, Method: m})
+		t, r, err := OpenWSOn(hc, WSOpts{ConnID: connID, Headers: hdr, Method: m})
 		if err != nil {
 			hc.Close()
 			return c05Outcome{Err: err}
@@ -247,7 +257,7 @@ func (w *c05World) c05Request(method string, hdr Hdr, pre func(hc *HConn, method
 		hc.Close()
 		return c05Outcome{Status: r.Status, Resp: r}
 	case "RDG_OUT_DATA":
-		h := append(Hdr{{"Rdg-Connection-Id", NewConnID("lo")}}, hdr...)
+		h := append(Hdr{{"Rdg-Connection-Id", connID}}, hdr...)
 		r, err := hc.Do("RDG_OUT_DATA", GatewayPath, h, nil, 10*time.Second)
 		defer hc.Close()
 		if err != nil {
@@ -262,7 +272,7 @@ func (w *c05World) c05Request(method string, hdr Hdr, pre func(hc *HConn, method
 		if pre != nil {
 			e.Auth = pre
 		}
-		t, r, err := e.OpenTunnel(NewConnID("li"))
+		t, r, err := e.OpenTunnel(connID)
 		if err != nil {
 			if strings.Contains(err.Error(), "auth on") || strings.Contains(err.Error(), "pre:") {
 				return c05Outcome{Err: err}
@@ -559,6 +569,10 @@ func c05Run(l *Lab, rep *Report, w *c05World) {
 					rep.Violate("C05/backend-called-for-disabled-scheme/"+name, fmt.Sprintf("%s with %q: %d calls to the authentication service although local is disabled", m, c.name, n), detail)
 				}
 			}
+			// identity of the tunnel as the HTTP layer handed it over (hook event tunnel.new)
+			if out.Reached && enabled && c.valid && !onlyOpenID && (m == "RDG_OUT_DATA-upgrade" || m == "RDG_IN_DATA" || m == "RDG_OUT_DATA") {
+				w.c05HandedIdentity(rep, out, c.user, m, c.name, detail)
+			}
 			// identity of the tunnel
 			if out.T != nil {
 				if out.Reached && c.valid && !has(w.mech, "openid") && (m == "RDG_OUT_DATA-upgrade" || m == "RDG_IN_DATA") {
@@ -568,6 +582,52 @@ func c05Run(l *Lab, rep *Report, w *c05World) {
 			}
 			if ci%7 == 0 && m == "RDG_OUT_DATA-upgrade" {
 				rep.Sample(detail)
+			}
+		}
+	}
+	// a web session that signed in through OpenID as one user does not rename the tunnel of a request
+	// whose credentials the backend confirmed for another user (and does not stand in for credentials)
+	if !onlyOpenID && has(w.mech, "openid") && w.sess1 != "" {
+		sess := [2]string{"Cookie", w.sess1}
+		for _, m := range []string{"RDG_OUT_DATA-upgrade", "RDG_IN_DATA"} {
+			o := w.c05Request(m, Hdr{sess}, nil)
+			if o.T != nil {
+				o.T.Close()
+			}
+			rep.Eval(HashStr(name, "openid-session-alone", m, o.Status))
+			if o.Reached {
+				rep.Violate("C05/handler-reached-without-confirmed-credentials/"+name+"/openid-session-cookie", fmt.Sprintf("mechanisms %v: %s with the cookie of an OpenID session and no Authorization header reached the handler (status %d)", w.mech, m, o.Status), nil)
+			}
+			for _, c := range creds {
+				if !c.valid || c.dontcare || c.user == "" || !has(w.mech, c.scheme) || strings.HasPrefix(c.name, "two headers") {
+					continue
+				}
+				hdr, pre := append(Hdr{sess}, c.hdr...), c.pre
+				if c.gen != nil {
+					g := c.gen
+					if m == "RDG_IN_DATA" {
+						hdr = Hdr{sess}
+						pre = func(hc *HConn, method string) (Hdr, error) { return g(), nil }
+					} else {
+						hdr = append(Hdr{sess}, g()...)
+					}
+				}
+				out := w.c05Request(m, hdr, pre)
+				if out.Err != nil {
+					rep.Inconclusive(fmt.Sprintf("%s %s %s with an OpenID session cookie: %v", name, m, c.name, out.Err))
+					continue
+				}
+				rep.Eval(HashStr(name, "openid-session+credentials", m, c.name, out.Status, out.Reached))
+				rep.Count("requests_with_openid_session_and_credentials", 1)
+				detail := map[string]any{"mechanisms": w.mech, "method": m, "credentials": c.name, "session": "OpenID sign-in of " + w.u1, "status": out.Status}
+				if !out.Reached {
+					rep.Violate("C05/confirmed-credentials-refused/"+name+"/with-openid-session", fmt.Sprintf("mechanisms %v: %s with %q and the cookie of an OpenID session was not let through (status %d)", w.mech, m, c.name, out.Status), detail)
+				} else {
+					w.c05HandedIdentity(rep, out, c.user, m, c.name+" + OpenID session of "+w.u1, detail)
+				}
+				if out.T != nil {
+					out.T.Close()
+				}
 			}
 		}
 	}
@@ -841,4 +901,21 @@ func (w *c05World) c05Identity(rep *Report, t *TClient, user, method, cname stri
 		rep.Violate("C05/tunnel-user-is-not-the-confirmed-user/"+w.name(), fmt.Sprintf("%s with %q: confirmed user %q was allowed to open the other user's host %s", method, cname, user, other.Addr()), detail)
 	}
 	rep.Count("identity_probes", 1)
+}
+
+// c05HandedIdentity: the identity the HTTP layer attached to the tunnel it created for this request
+// (hook event tunnel.new, keyed by the connection id the lab chose) is the confirmed user. This also
+// decides configurations with OpenID stacked, where the access cookie renames the tunnel's user at
+// tunnel-create and the host-policy probe of c05Identity cannot tell who was handed over.
+func (w *c05World) c05HandedIdentity(rep *Report, out c05Outcome, user, method, cname string, detail map[string]any) {
+	ev, _, ok := w.gw.WaitEvent(out.EvFrom, 5*time.Second, func(e GWEvent) bool { return e.Kind == "tunnel.new" && e.RDGID == out.ConnID })
+	if !ok {
+		rep.Inconclusive(fmt.Sprintf("hook event tunnel.new for connection id %q not observed", out.ConnID))
+		return
+	}
+	got, _ := ev.Raw["user"].(string)
+	rep.Count("handed_identity_events", 1)
+	if got != user {
+		rep.Violate("C05/tunnel-user-is-not-the-confirmed-user/"+w.name()+"/handed-over", fmt.Sprintf("%s with %q: the backend confirmed %q but the tunnel was created for user %q", method, cname, user, got), detail)
+	}
 }
